@@ -64,6 +64,10 @@ var (
 func run(e *core.Env) {
 	burstOps, switchAt = 0, [2]int{}
 	tp := e.Tape
+	if tp.Chance(1, 8) {
+		runHandshakeKeys(e)
+		return
+	}
 	e.StartClock()
 	nNodes := 2
 	if tp.Chance(1, 4) {
